@@ -13,8 +13,7 @@
 EXTENDS Fn_Incremental, TLC, Json, SequencesExt
 
 CONSTANTS Paths,      \* subset of {"a", "b", "d", "d/x"}
-          Rounds,     \* number of backups per history
-          MaxEdits,   \* edits before a backup: 0..MaxEdits
+          EditPlan,   \* sequence: EditPlan[k] = maximal number of edits before the k-th backup of a history
           Twin,       \* TRUE: parent based backups are taken even when the premise is violated (negative twin)
           Emit,       \* TRUE: print the history when it is complete
           Modes       \* subset of {"inc", "incskip", "force", "forceskip"}
@@ -36,7 +35,17 @@ Below(p) == {q \in Paths : Up(q) = p}
 UsesParent(m) == m \in {"inc", "incskip"}
 Skips(m) == m \in {"incskip", "forceskip"}
 
-InitSrc == [p \in Paths |-> IF p = "d" THEN Dir ELSE IF p = "a" THEN NewFile(1) ELSE IF p = "b" THEN NewFile(2) ELSE NewFile(3)]
+Rounds == Len(EditPlan)
+\* plans used by the configurations (TLC configuration files cannot contain tuples)
+Plan01 == <<0, 1>>
+Plan11 == <<1, 1>>
+Plan111 == <<1, 1, 1>>
+Plan3333 == <<3, 3, 3, 3>>
+Plan33333 == <<3, 3, 3, 3, 3>>
+\* initial files have different sizes so that the first size change of "a" shrinks and that of "b" grows the file
+InitSrc == [p \in Paths |-> IF p = "d" THEN Dir
+                            ELSE IF p = "a" THEN [NewFile(1) EXCEPT !.size = 3]
+                            ELSE IF p = "b" THEN NewFile(2) ELSE [NewFile(3) EXCEPT !.size = 2]]
 
 Init ==
   /\ src = InitSrc /\ clock = 4 /\ flags \in Flags /\ group = <<>> /\ round = 0 /\ todo = 0
@@ -83,7 +92,7 @@ Ops2 == {"Rename", "Swap"}
 
 ChooseEdits ==
   /\ todo = 0 /\ round < Rounds
-  /\ \E k \in 1..(MaxEdits + 1) : todo' = k
+  /\ \E k \in 1..(EditPlan[round + 1] + 1) : todo' = k
   /\ UNCHANGED <<src, clock, flags, group, round, hist, ok>>
 
 Edit ==
